@@ -19,6 +19,7 @@ let judge (_input : string) (impl : string) (_model : string) : verdict =
 let tag (input : string) (out : string) : string =
   match String.split_on_char '|' input with
   | "G" :: _ -> "synthetic-gpos"
+  | "S" :: _ -> "synthetic-gsub"
   | f :: seed :: script :: _ ->
     (if seed = "0" then "pristine" else "mutated") ^ ":" ^ script ^ ":" ^
     (match String.split_on_char ':' out with "wf" :: _ -> "" | _ -> "") ^ Filename.basename f
